@@ -136,8 +136,12 @@ class Opaque:
         return f"Opaque<{self.origin}>"
 
 
+class SymbolicMarker:
+    """Base class of helper objects (e.g. the symbolic environment) that force interpretation of a call."""
+
+
 def is_symbolic(v, _depth=0):
-    if isinstance(v, SV | SObj | SLazy | Opaque):
+    if isinstance(v, SV | SObj | SLazy | Opaque | SymbolicMarker):
         return True
     if _depth > 6:
         return False
